@@ -126,6 +126,7 @@ PROPS["C01"] = {
         Leg("parallel", "c01", "^TestParallel$", engine="sched", checks=(400, 8000), shards=(2, 16), tests=["parallel"], replay_attempts=5),
         Leg("parallel-race", "c01", "^TestParallel$", engine="sched", race=True, checks=(100, 2000), shards=(2, 8), tests=["parallel"], replay_attempts=5),
         Leg("first-use-race", "c01", "^TestParallel$", engine="sched", race=True, checks=(2, 2), shards=(12, 64), env={"VERIF_FIRST_USE": "1"}, tests=["parallel"], replay_attempts=5),
+        Leg("quiet-line", "c01", "^TestQuietLine$", engine="sched", checks=(1, 3), shards=(3, 6), tests=["quiet-line"]),
         Leg("aged-handler", "c01", "^TestAgedHandler$", engine="sched", checks=(1, 1), shards=(2, 4), timeout=(300, 3600), tests=["aged-handler"]),
         Leg("fuzz-buffer", "c01", "", engine="native-fuzz", fuzz="FuzzBuffer", fuzztime=150, tiers=("thorough",)),
     ],
